@@ -166,6 +166,9 @@ impl ECDSA {
     }
 
     pub fn sign_digest_with_deterministic_k(private_key: &PrivateKey, digest: &[u8]) -> Result<Signature, BSVErrors> {
+        if digest.len() != 32 {
+            return Err(BSVErrors::CustomECDSAError("Digest must be 32 bytes long".to_string()));
+        }
         ECDSA::sign_digest_with_deterministic_k_impl(private_key, GenericArray::from_slice(digest))
     }
 }
